@@ -1959,14 +1959,23 @@ func (t *fnTrans) call(i *ssa.Call, e *env) val {
 				}
 				return acc
 			}
-			if (b.Name() == "max" || b.Name() == "min") && len(i.Call.Args) == 2 && cur.ext {
+			if (b.Name() == "max" || b.Name() == "min") && len(i.Call.Args) >= 2 {
+				// the go1.21 built-ins on integers: `min(x, y)` is `if x < y then x else y`, `max(x, y)` is
+				// `if x > y then x else y` (for integers the two orders of the comparison give the same value)
 				if _, signed, ok := intInfo(i.Type()); ok {
-					x, y := t.get(i.Call.Args[0], e), t.get(i.Call.Args[1], e)
-					cond := num(x, signed) + " < " + num(y, signed)
-					if b.Name() == "max" {
-						return val{k: kInt, e: "if " + cond + " then " + par(y) + " else " + par(x)}
+					acc := t.get(i.Call.Args[0], e)
+					for _, a := range i.Call.Args[1:] {
+						y := t.get(a, e)
+						if acc.k != kInt || y.k != kInt {
+							fail("builtin %s on %s", b.Name(), i.Type().String())
+						}
+						op := " < "
+						if b.Name() == "max" {
+							op = " > "
+						}
+						acc = val{k: kInt, e: "if " + num(acc, signed) + op + num(y, signed) + " then " + par(acc) + " else " + par(y)}
 					}
-					return val{k: kInt, e: "if " + cond + " then " + par(x) + " else " + par(y)}
+					return acc
 				}
 			}
 			if b.Name() == "len" && len(i.Call.Args) == 1 && cur.ext {
